@@ -223,6 +223,7 @@ func c07Scenario(r *sim.Run) {
 			if live && m.phantom[0] != nil {
 				w.mu.Lock()
 				w.live[m.phantom[0].String()] = true
+				w.liveCached = tp.Bool("live-verdict-from-cache")
 				w.mu.Unlock()
 			}
 			// ---- the admission model (from the property text) ----
